@@ -35,13 +35,27 @@ impl<'a> Src<'a> {
 fn num_lit(kind: &str, v: u32) -> String {
   match kind {
     "f64" => format!("{}.{}", v % 9 + 1, [0, 5, 25][(v / 9) as usize % 3]),
+    "f32" => format!("{}.{}<f32>", v % 9 + 1, [0, 5, 25][(v / 9) as usize % 3]),
+    "r64" => format!("{}/{}", v % 9 + 1, [7, 2, 3][(v / 9) as usize % 3]),
+    "c64" => format!("{}+{}i", v % 9 + 1, (v / 9) % 7 + 2),
     k => format!("{}<{}>", v % 9 + 1, k),
   }
 }
 
+/// all element kinds; a choice word below 4 keeps the four kinds older case files were written with
+const ALLK: [&str; 14] = ["f64", "u8", "i32", "u16", "u32", "u64", "u128", "i8", "i16", "i64", "i128", "f32", "r64", "c64"];
+fn kind_of(w: u32) -> &'static str {
+  if w < 4 { return ["f64", "f64", "u8", "i32"][w as usize]; }
+  // half f64 (no conversion step: typed values cannot be run from bytecode at this commit, a listed C06 finding, so they end the
+  // differential early), a quarter the two kinds of older case files, a quarter any of the 14 kinds
+  match (w / 4) % 4 { 0 | 1 => "f64", 2 => ["u8", "i32"][(w % 2) as usize], _ => ALLK[(w / 16) as usize % 14] }
+}
+fn is_unsigned(k: &str) -> bool { k.starts_with('u') }
+pub const STRS: [&str; 8] = ["hello", "a b", "", "héllo wörld", "日本", "😀 ok", "q\"uote", "tab\there"];
+
 fn mat_lit(kind: &str, r: usize, c: usize, s: &mut Src) -> String {
   let mut rows = vec![];
-  for _ in 0..r { let mut row = vec![]; for _ in 0..c { let v = s.next(); row.push(if kind == "f64" { format!("{}.{}", v % 9 + 1, [0, 5][(v / 9) as usize % 2]) } else { format!("{}", v % 9 + 1) }); } rows.push(row.join(" ")); }
+  for _ in 0..r { let mut row = vec![]; for _ in 0..c { let v = s.next(); row.push(if kind == "f64" { format!("{}.{}", v % 9 + 1, [0, 5][(v / 9) as usize % 2]) } else if matches!(kind, "f32" | "r64" | "c64") { num_lit(kind, v) } else { format!("{}", v % 9 + 1) }); } rows.push(row.join(" ")); }
   format!("[{}]", rows.join("; "))
 }
 
@@ -63,19 +77,19 @@ pub fn build(choices: &[u32], o: Opts) -> Program {
     let mats: Vec<Var> = env.iter().filter(|v| matches!(&v.ty, Ty::Num(_, sh) if *sh != Shape::S)).cloned().collect();
     match sel {
       0 | 1 => { // scalar define (typed or not), sometimes mutable
-        let k = kinds[s.pick(4)]; let name = fresh(&mut n); let m = o.allow_mutation && s.pick(2) == 0;
+        let k = kind_of(s.next()); let name = fresh(&mut n); let m = o.allow_mutation && s.pick(2) == 0;
         let v = s.next();
-        let text = if k == "f64" { format!("{}{} := {}", if m { "~" } else { "" }, name, num_lit(k, v)) } else if s.pick(2) == 0 { format!("{}{}<{}> := {}", if m { "~" } else { "" }, name, k, v % 9 + 1) } else { format!("{}{} := {}", if m { "~" } else { "" }, name, num_lit(k, v)) };
+        let text = if k == "f64" { format!("{}{} := {}", if m { "~" } else { "" }, name, num_lit(k, v)) } else if s.pick(2) == 0 && !matches!(k, "r64" | "c64") { format!("{}{}<{}> := {}", if m { "~" } else { "" }, name, k, v % 9 + 1) } else { format!("{}{} := {}", if m { "~" } else { "" }, name, num_lit(k, v)) };
         if k != "f64" { feat(&mut p, "typed-scalar"); }
         p.lines.push(text); env.push(Var { name, ty: Ty::Num(k, Shape::S), mutable: m });
       }
-      2 => { let name = fresh(&mut n); let v = s.pick(4); p.lines.push(format!("{} := \"{}\"", name, ["hello", "a b", "", "héllo wörld"][v])); feat(&mut p, "string"); env.push(Var { name, ty: Ty::Str, mutable: false }); }
+      2 => { let name = fresh(&mut n); let w = s.next() as usize; let v = if w < 4 { w } else { (w / 4) % 8 }; p.lines.push(format!("{} := \"{}\"", name, STRS[v])); if !STRS[v].is_ascii() { feat(&mut p, "string-non-ascii"); } feat(&mut p, "string"); env.push(Var { name, ty: Ty::Str, mutable: false }); }
       3 => { let name = fresh(&mut n); p.lines.push(format!("{} := {}", name, ["true", "false"][s.pick(2)])); env.push(Var { name, ty: Ty::Bool(Shape::S), mutable: false }); }
       4 | 5 => { // matrix define
-        let k = kinds[s.pick(4)]; let name = fresh(&mut n); let m = o.allow_mutation && s.pick(3) == 0;
+        let k = kind_of(s.next()); let name = fresh(&mut n); let m = o.allow_mutation && s.pick(3) == 0;
         let (r, c) = [(1, 3), (3, 1), (2, 2), (2, 3), (1, 2), (4, 1), (4, 2)][s.pick(7)];
         let lit = mat_lit(k, r, c, &mut s);
-        let text = if k == "f64" { format!("{}{} := {}", if m { "~" } else { "" }, name, lit) } else { format!("{}{}<[{}]> := {}", if m { "~" } else { "" }, name, k, lit) };
+        let text = if matches!(k, "f64" | "f32" | "r64" | "c64") { format!("{}{} := {}", if m { "~" } else { "" }, name, lit) } else { format!("{}{}<[{}]> := {}", if m { "~" } else { "" }, name, k, lit) };
         if k != "f64" { feat(&mut p, "typed-matrix"); }
         if r == 4 { feat(&mut p, "four-row-vertcat"); }
         let sh = if r == 1 { Shape::Row(c) } else if c == 1 { Shape::Col(r) } else { Shape::Mat(r, c) };
@@ -108,7 +122,7 @@ pub fn build(choices: &[u32], o: Opts) -> Program {
       }
       9 if !nums.is_empty() => { // unary minus / transpose
         let a = nums[s.pick(nums.len())].clone(); let Ty::Num(k, sh) = a.ty.clone() else { continue };
-        if k == "u8" { continue; }
+        if is_unsigned(k) { continue; }
         let name = fresh(&mut n);
         if sh != Shape::S && s.pick(2) == 0 {
           let tsh = match sh { Shape::Row(c) => Shape::Col(c), Shape::Col(r) => Shape::Row(r), Shape::Mat(r, c) => Shape::Mat(c, r), Shape::S => Shape::S };
@@ -176,13 +190,22 @@ pub fn build(choices: &[u32], o: Opts) -> Program {
           env.push(Var { name, ty: Ty::Num(k, sh), mutable: false });
         }
       }
-      16 => { let name = fresh(&mut n); let a = s.pick(5); p.lines.push(format!("{} := {{{}, {}, {}}}", name, a + 1, a + 2, a + 1)); p.core = false; feat(&mut p, "set"); env.push(Var { name, ty: Ty::Set, mutable: false }); }
+      16 => { // set literal; one choice word: below 5 it is the f64 set older case files were written with, above it selects the element kind
+        let name = fresh(&mut n); let w = s.next() as usize; let a = w % 5; let variant = if w < 5 { 0 } else { (w / 5) % 8 };
+        let el = |i: usize| -> String { let v = (a + i) as u32; match variant { 0 | 1 => format!("{}", v + 1), 2 => format!("{}<u8>", v + 1), 3 => format!("\"{}\"", STRS[(v as usize) % 8]), 4 => format!("{}/7", v + 1), 5 => format!("{}+{}i", v + 1, v + 3), 6 => format!("{}<i64>", v + 1), _ => format!("({}, \"{}\")", v + 1, STRS[(v as usize + 3) % 8]) } };
+        p.lines.push(format!("{} := {{{}, {}, {}}}", name, el(0), el(1), el(0))); p.core = false; feat(&mut p, "set");
+        if variant >= 2 { feat(&mut p, ["", "", "set-u8", "set-string", "set-r64", "set-c64", "set-i64", "set-tuple"][variant]); }
+        env.push(Var { name, ty: Ty::Set, mutable: false }); }
       17 => { // table literal: 1-4 columns of mixed kinds x 1-4 rows (one choice decides everything, so older case files stay aligned)
         let name = fresh(&mut n); let w = s.next() as usize; let a = w % 5;
         let (ncols, nrows) = (1 + (w / 5) % 4, 1 + (w / 20) % 4);
         let kinds: Vec<usize> = (0..ncols).map(|c| if (w / 80) % 3 == 0 { 0 } else { (w / 240 + c * 7 + c * c) % 4 }).collect();
-        let header: Vec<String> = (0..ncols).map(|c| format!("{}<{}>", ["x", "y", "z", "w"][c], ["f64", "u8", "bool", "string"][kinds[c]])).collect();
-        let rows: Vec<String> = (0..nrows).map(|r| (0..ncols).map(|c| { let v = a + r * ncols + c; match kinds[c] { 0 => format!("{}", v), 1 => format!("{}", v % 200), 2 => format!("{}", v % 2 == 0), _ => format!("\"s{}\"", v) } }).collect::<Vec<_>>().join(" ")).collect();
+        // (a high part of the same choice word widens the column kinds: i64, f32, r64, c64 columns and non-ASCII strings)
+        let wide = (w / 960) % 3 != 0;
+        let kinds: Vec<usize> = if wide { kinds.iter().enumerate().map(|(c, k)| (k + (w / 2880 + c * 3) % 8) % 8).collect() } else { kinds };
+        let header: Vec<String> = (0..ncols).map(|c| format!("{}<{}>", ["x", "y", "z", "w"][c], ["f64", "u8", "bool", "string", "i64", "f32", "r64", "c64"][kinds[c]])).collect();
+        let rows: Vec<String> = (0..nrows).map(|r| (0..ncols).map(|c| { let v = a + r * ncols + c; match kinds[c] { 0 => format!("{}", v), 1 => format!("{}", v % 200), 2 => format!("{}", v % 2 == 0), 3 => if wide { format!("\"{}{}\"", STRS[v % 6], v) } else { format!("\"s{}\"", v) }, 4 => format!("{}", v), 5 => format!("{}.5", v), 6 => format!("{}/7", v + 1), _ => format!("{}+{}i", v, v + 2) } }).collect::<Vec<_>>().join(" ")).collect();
+        if wide { feat(&mut p, "table-wide-kinds"); }
         p.lines.push(format!("{} := | {} | {} |", name, header.join(" "), rows.join(" | ")));
         p.core = false; feat(&mut p, "table"); if ncols != nrows { feat(&mut p, "table-non-square"); }
         env.push(Var { name, ty: Ty::Table, mutable: false });
